@@ -1,12 +1,10 @@
 import Nstd.Str.Lemmas
+import Nstd.Str.Spec
 /-!
   Checked-memory lemmas (`wr`, `rdList`, `poison`, `mkBlock`) and the effect of the two
   remaining primitives (`allocSet`, `writeOwn`) on the invariant and on the abstract values.
 -/
 namespace Nstd.Str
-
-/-- `resize` on byte lists: chars that come into view are unspecified -/
-def resizeL (a : List Byte) (n : Nat) : List Byte := a.take n ++ List.replicate (n - a.length) none
 
 theorem wr_eq {m : List Byte} {off : Nat} {d m' : List Byte} (h : wr m off d = some m') :
     off + d.length ≤ m.length ∧ m' = m.take off ++ d ++ m.drop (off + d.length) := by
